@@ -81,9 +81,15 @@ def showLog (showM : Nat → String) (regSite : Nat → String) (calls : List Ho
       line :: go stack' cs
   go [] calls
 
+def opSiteOk (n : Nat) : POp → Bool
+  | .reg k => decide (k < n)
+  | .new k _ _ => decide (k < n)
+  | .evt k _ _ => decide (k < n)
+  | _ => true
+
 def progFlush (st : ProgState) : List String :=
   if !st.active then [] else
-  if st.bad then ["bad-input"] else
+  if st.bad || !(st.ops.all (opSiteOk st.sites.length)) then ["bad-input"] else
   if st.oracleOnly then [] else
   let sites := st.sites
   let ops := st.ops.reverse
@@ -121,6 +127,7 @@ def progStep (st : ProgState) (ts : List String) : ProgState × List String :=
   | ["filter", l] => ({ st with filter := l.toNat? }, [])
   | ["sender", "start", _] => ({ st with oracleOnly := true }, [])
   | ["threads", _, _] => (st, [])
+  | ["prehost", _] => (st, [])
   | "p" :: rest =>
     match pPOp rest with
     | some (op, []) => ({ st with ops := op :: st.ops }, [])
